@@ -359,7 +359,7 @@ func (e *encRun) judgeCanDisplay(r rune, flag bool, got bool) {
 	}
 }
 
-func b01(b bool) string {
+func cb01(b bool) string {
 	if b {
 		return "1"
 	}
@@ -444,7 +444,7 @@ func execEnc(line string) h.Result {
 					continue
 				}
 				c0, c1 := scr.CanDisplay(r, false), scr.CanDisplay(r, true)
-				outs = append(outs, h.Hex(got)+"/"+b01(c0)+b01(c1))
+				outs = append(outs, h.Hex(got)+"/"+cb01(c0)+cb01(c1))
 				e.judge(x, r, nil, got)
 				e.judgeCanDisplay(r, false, c0)
 				e.judgeCanDisplay(r, true, c1)
@@ -457,7 +457,7 @@ func execEnc(line string) h.Result {
 		case f[0] == "C" && len(f) == 4:
 			r, flag := rune(h.Atoi(f[1])), f[2] == "1"
 			got := scr.CanDisplay(r, flag)
-			obs = append(obs, "c:"+b01(got))
+			obs = append(obs, "c:"+cb01(got))
 			e.judgeCanDisplay(r, flag, got)
 		case f[0] == "R" && len(f) == 3:
 			r, s := rune(h.Atoi(f[1])), string(h.Unhex(f[2]))
